@@ -41,6 +41,8 @@ type params struct {
 	Dup bool `json:"dup,omitempty"`
 	// Modem (library sender): the sender's connection implements transport.Flusher and transport.TxBuffer.
 	Modem bool `json:"modem,omitempty"`
+	// ZeroSum (library sender): the message is chosen so that its transmitted data bytes sum to 0 mod 256.
+	ZeroSum bool `json:"zero_sum,omitempty"`
 	// SenderMaster (library sender): the sending station is the master, so the receiving station takes the first turn,
 	// has nothing (FF), and the damaged transfer happens AFTER the sender has seen the remote's FF.
 	SenderMaster bool `json:"sender_master,omitempty"`
@@ -130,6 +132,21 @@ func plan(seed int64, tier string) []vrt.Case {
 			}
 		}
 	}
+	// a message whose data bytes sum to 0 mod 256 (checksum byte 00)
+	for _, kind := range []string{"values", "subst", "struct"} {
+		cs = append(cs, vrt.Case{ID: "lib-zerosum-" + kind, TimeoutS: 1200,
+			Params: vrt.MustParams(params{Seed: seed, Leg: "lib", Msg: 5, Kind: kind, Shard: 0, Shards: map[string]int{"values": 2, "subst": 4, "struct": 1}[kind], ZeroSum: true})})
+	}
+	// a message larger than 64 KiB under compensated pairs (each session moves ~60 kB: fewer of them)
+	for _, leg := range []string{"lib", "ref"} {
+		np := 120
+		if tier == "thorough" {
+			np = 1200
+		}
+		for sh := 0; sh < 4; sh++ {
+			cs = append(cs, vrt.Case{ID: fmt.Sprintf("%s-big-pairs-%d", leg, sh), Params: vrt.MustParams(params{Seed: seed, Leg: leg, Msg: 3, Kind: "pairs", Shard: sh, Shards: 4, Pairs: np}), TimeoutS: 1200})
+		}
+	}
 	// gzip payloads (GZIP_EXPERIMENT on both stations)
 	for _, leg := range []string{"lib", "ref"} {
 		for _, m := range msgs {
@@ -147,12 +164,57 @@ func plan(seed int64, tier string) []vrt.Case {
 	return cs
 }
 
+// bodySuffix: see bodyFor class 5 (a worker runs one case at a time).
+var bodySuffix string
+
+// zeroSumLeg searches a message whose transmitted data bytes sum to 0 mod 256 (the checksum byte behind EOT is then 00):
+// one message in 256 is like that, and arithmetic on the sum has its edge there.
+func zeroSumLeg() (*libLeg, *target, error) {
+	for k := 0; k < 6000; k++ {
+		bodySuffix = fmt.Sprintf("suffix %d\r\n", k)
+		l, err := newLibLeg(5, 1, 0, false)
+		if err != nil {
+			return nil, nil, err
+		}
+		t, err := l.record()
+		if err != nil {
+			return nil, nil, err
+		}
+		f, err := b2fref.ParseFrame(t.stream[t.start:])
+		if err != nil {
+			return nil, nil, err
+		}
+		sum := 0
+		for _, b := range f.Data {
+			sum += int(b)
+		}
+		if sum%256 == 0 {
+			return l, t, nil
+		}
+	}
+	return nil, nil, fmt.Errorf("no zero-sum message found")
+}
+
 func bodyFor(class int) []byte {
 	switch class {
 	case 0:
 		return []byte("short\r\n")
 	case 1:
 		return bytes.Repeat([]byte("this is text that is not very compressible 0123456789 abcdefghij\r\n"), 6)
+	case 5: // class 1 with a suffix chosen by the caller (see zeroSumLeg)
+		return append(bodyFor(1), []byte(bodySuffix)...)
+	case 3: // larger than 64 KiB (an attachment-sized message): size-dependent code paths of the receiver
+		r := vrt.Rand(9, "c04big")
+		b := make([]byte, 70000)
+		for i := range b {
+			b[i] = byte(' ' + r.Intn(95))
+			if i%70 == 68 {
+				b[i] = '\r'
+			} else if i%70 == 69 {
+				b[i] = '\n'
+			}
+		}
+		return b
 	default:
 		r := vrt.Rand(7, "c04body")
 		b := make([]byte, 1500)
@@ -510,6 +572,13 @@ func run(c vrt.Case) vrt.Obs {
 		l, err = newLibLeg(p.Msg, p.Block, p.Target, p.Gzip)
 	} else {
 		l, err = newRefLeg(p.Msg, p.Seed, p.Gzip)
+	}
+	if p.ZeroSum && err == nil {
+		var zl *libLeg
+		if zl, _, err = zeroSumLeg(); zl != nil {
+			l = zl
+			o.Count("zero_sum_messages_under_attack", 1)
+		}
 	}
 	if err != nil {
 		o.Inconclusive = append(o.Inconclusive, "setup: "+err.Error())
